@@ -15,6 +15,7 @@ RULE = (
     "and weight, weight-averaged log2) plus direct conservation clauses. Non-trivial = some run of >= 2 segments is merged "
     "and some adjacent pair is not; distinct = distinct case JSON."
 )
+CLI_SHARE = 4  # one case in CLI_SHARE also goes through the command line (vk/cli.py)
 QUICK = {"examples": 3200, "shards": 16, "budget_s": 300}
 THOROUGH = {"examples": 24000, "shards": 16, "budget_s": 2400}
 ASSUMPTIONS = [
